@@ -410,6 +410,9 @@ impl Scenario for ChClose {
             }
         }
         v.push(json!({"n": 1, "state": "crossing-reuse"}));
+        // ... and the automatic allocation right after crossing closes of the newest channel: it
+        // must not hand out the id whose CloseOk is still on its way
+        v.push(json!({"n": 3, "state": "crossing-reuse-none"}));
         // every kind of reply code and text (no deviation: the values are what is swept)
         for code in [0u16, 1, 200, 311, 404, 541, 65535] {
             for (text, state) in [("", "inflight"), ("NOT_FOUND - no queue 'q' in vhost '/'", "consumers"), ("gr\u{fc}\u{df} \u{4e16}", "idle")] {
@@ -432,7 +435,7 @@ impl Scenario for ChClose {
         if p["codes"] == true {
             return if tier == "thorough" { 1 } else { 0 };
         }
-        if p["state"] == "crossing-reuse" {
+        if p["state"] == "crossing-reuse" || p["state"] == "crossing-reuse-none" {
             return 2;
         }
         if p["fine"] == true {
@@ -458,7 +461,8 @@ impl Scenario for ChClose {
             frames.push(AMQPFrame::Body(n, vec![1]));
         }
         let reuse = state == "crossing-reuse";
-        let state = if reuse { "crossing".to_string() } else { state };
+        let reuse_none = state == "crossing-reuse-none";
+        let state = if reuse || reuse_none { "crossing".to_string() } else { state };
         let code = p["code"].as_u64().unwrap_or(406) as u16;
         let text = p["text"].as_str().unwrap_or("PRECONDITION_FAILED").to_string();
         frames.push(chan_close_frame(n, code, &text));
@@ -490,8 +494,10 @@ impl Scenario for ChClose {
                 };
                 let mut actors = Vec::new();
                 for chan in 1..=3u16 {
-                    let ch = conn.open_channel(Some(chan)).expect("open_channel");
-                    let state = if st2 == "crossing-reuse" { "crossing".to_string() } else { st2.clone() };
+                    // (reuse-none: every channel comes from the automatic allocation, 1, 2, 3 in turn)
+                    let ch = if reuse_none { conn.open_channel(None) } else { conn.open_channel(Some(chan)) }.expect("open_channel");
+                    assert_eq!(ch.channel_id(), chan, "fresh connection: ids are handed out in order");
+                    let state = if st2 == "crossing-reuse" || st2 == "crossing-reuse-none" { "crossing".to_string() } else { st2.clone() };
                     actors.push((chan, ctx.spawn(&format!("c{}", chan), move |ctx| {
                         let mut seq = 2u32;
                         if chan == n {
@@ -556,7 +562,16 @@ impl Scenario for ChClose {
                 }
                 for (chan, a) in actors {
                     ctx.join(a);
-                    if chan == n && st2 == "crossing" && !reuse {
+                    if chan == n && reuse_none {
+                        let r = conn.open_channel(None);
+                        ctx.log(format!("reopen-none -> {:?}", r.as_ref().map(|c| c.channel_id()).map_err(err_name)));
+                        if let Ok(c) = r {
+                            let r = c.qos(0, 1, false);
+                            ctx.log(format!("use-none -> {}", res(&r)));
+                            let r = c.close();
+                            ctx.log(format!("reclose -> {}", res(&r)));
+                        }
+                    } else if chan == n && st2 == "crossing" && !reuse {
                         // id n must be available again - but see known_findings.json: reusing the id
                         // right after crossing closes can meet the server's late CloseOk; probed
                         // separately by variant crossing-reuse
@@ -590,7 +605,8 @@ impl Scenario for ChClose {
         let n = p["n"].as_u64().unwrap() as u16;
         let state = p["state"].as_str().unwrap();
         let reuse = state == "crossing-reuse";
-        let state = if reuse { "crossing" } else { state };
+        let reuse_none = state == "crossing-reuse-none";
+        let state = if reuse || reuse_none { "crossing" } else { state };
         let closed = o.io_events.iter().any(|e| matches!(e, IoEvent::Frame(AMQPFrame::Method(c, AMQPClass::Channel(amq_protocol::protocol::channel::AMQPMethod::Close(_)))) if *c == n));
         let code = p["code"].as_u64().unwrap_or(406);
         let text = p["text"].as_str().unwrap_or("PRECONDITION_FAILED").to_string();
@@ -660,6 +676,13 @@ impl Scenario for ChClose {
                 }
             }
         }
+        if reuse_none {
+            let main = o.logs.get("main").cloned().unwrap_or_default();
+            let ok = main.iter().any(|l| l.starts_with("reopen-none -> Ok(")) && main.iter().any(|l| l == "use-none -> Ok") && main.iter().any(|l| l == "reclose -> Ok") && main.last().map(|s| s.as_str()) == Some("close -> Ok");
+            if !ok {
+                v.push(("chclose:open-none-after-crossing".into(), format!("server and client closed channel {} at the same time; a channel opened automatically right afterwards must work: {:?}", n, main)));
+            }
+        }
         if reuse {
             // the one interleaving recorded as a known finding: the server's CloseOk for the
             // client's crossing Close arrives after id n was opened again
@@ -688,7 +711,7 @@ impl Scenario for ChClose {
                 }
             }
             let main = o.logs.get("main").cloned().unwrap_or_default();
-            if !main.iter().any(|l| *l == format!("reopen -> Ok({})", n)) {
+            if !reuse_none && !main.iter().any(|l| *l == format!("reopen -> Ok({})", n)) {
                 v.push(("chclose:id-not-reusable".into(), format!("main log {:?}", main)));
             } else if !main.iter().any(|l| l == "reclose -> Ok") {
                 v.push(("chclose:reopened-channel-unusable".into(), format!("main log {:?}", main)));
